@@ -108,6 +108,8 @@ def nested_paths(pp, r, via_names, depth=0):
         if isinstance(t, PR):
             out.append([["tok", i]])
             out += [[["tok", i]] + p for p in nested_paths(pp, t, via_names, depth + 1)]
+        elif isinstance(t, list):
+            out.append([["tok", i]])          # a Group(aslist=True): plain list, mutated with list.append
     if via_names:
         for k in r.keys():
             v = r[k]
@@ -126,7 +128,7 @@ def has_named_group(pp, r, depth=0):
     for k in r.keys():
         occs = r.__getstate__()[1][0].get(k, [])
         for o in occs:
-            if isinstance(o[0], PR):
+            if isinstance(o[0], (PR, list)):      # a mutable value under a name is not deep-copied by deepcopy()
                 return True
     return any(has_named_group(pp, t, depth + 1) for t in toks)
 
@@ -149,7 +151,10 @@ def frame_case(pp, case):
         before = snapshot(pp, other)
         try:
             obj = follow(target, st["path"])
-            prlib.apply_real(pp, obj, st["op"])
+            if isinstance(obj, pp.ParseResults):
+                prlib.apply_real(pp, obj, st["op"])
+            elif isinstance(obj, list):
+                obj.append("zz")
         except prlib.ERRS:
             pass
         after = snapshot(pp, other)
@@ -180,8 +185,12 @@ def gen_frame_case(rng, pp, attr_ok):
                 path = rng.choice(ps)
         try:
             obj = follow(target, path)
-            op = gen_mutation(rng, pp, obj, attr_ok)
-            prlib.apply_real(pp, obj, op)
+            if isinstance(obj, list):
+                op = ["append", {"s": "zz"}]
+                obj.append("zz")
+            else:
+                op = gen_mutation(rng, pp, obj, attr_ok)
+                prlib.apply_real(pp, obj, op)
         except prlib.ERRS:
             continue
         steps.append({"who": who, "path": path, "op": op})
@@ -218,6 +227,11 @@ FRAME_FIXED = [
      "steps": [{"who": "copy", "path": [["name", "g"]], "op": ["delint", 0]}]},
     {"start": {"parse": ["nested", "a 0 1 b"]}, "kind": "deepcopy",
      "steps": [{"who": "copy", "path": [["tok", 0], ["tok", 1]], "op": ["append", {"s": "z"}]}]},
+    {"start": {"ctor": [{"list": [{"l": [{"s": "a"}]}, {"s": "b"}]}, None, True, True]}, "kind": "deepcopy",
+     "steps": [{"who": "copy", "path": [["tok", 0]], "op": ["append", {"s": "zz"}]}]},
+    {"start": {"parse": ["names", "a 0"]}, "kind": "copy.copy",
+     "steps": [{"who": "copy", "path": [], "op": ["setname", "x", {"s": "new"}]},
+               {"who": "copy", "path": [], "op": ["delname", "y"]}]},
 ]
 
 
@@ -265,6 +279,12 @@ def concat_check(pp, case, allow_region=False):
         return ("empty + a != a", snapshot(pp, a.copy()), snapshot(pp, e + a))
     if [snapshot(pp, x) for x in (a, b, c)] != snaps:
         return ("+ / sum changed an operand", snaps, [snapshot(pp, x) for x in (a, b, c)])
+    # the results of +, sum() and 0 + a are new objects: their own tokens/names can be changed freely
+    for what, obj in (("sum([a])", sum([a])), ("a + b", a + b), ("a + empty", a + PR([]))):
+        obj.append("zz")
+        obj["zz"] = "v"
+        if [snapshot(pp, x) for x in (a, b, c)] != snaps:
+            return (f"mutating the result of {what} changed an operand", snaps, [snapshot(pp, x) for x in (a, b, c)])
     return None
 
 
